@@ -55,6 +55,10 @@ func (c17Stream) Generate(rng *rand.Rand, n int, thorough bool) []Case {
 	for len(cs) < n {
 		switch rng.Intn(4) {
 		case 0:
+			if rng.Intn(3) == 0 {
+				cs = append(cs, Case{Line: "c17 kind=busy6 tls=0", Kind: "busy"})
+				continue
+			}
 			cs = append(cs, Case{Line: "c17 kind=busy tls=" + fmt.Sprint(rng.Intn(2)), Kind: "busy"})
 		case 1:
 			cs = append(cs, Case{Line: "c17 kind=malformed addr=" + hx([]byte(bad[rng.Intn(len(bad))])), Kind: "malformed"})
@@ -90,10 +94,22 @@ func (c17Stream) Impl(c Case) string {
 	port := 0
 	fmt.Sscanf(base[strings.LastIndex(base, ":")+1:], "%d", &port)
 	switch p["kind"] {
-	case "busy", "malformed":
+	case "busy", "malformed", "busy6":
 		addr := base
 		var hold net.Listener
-		if p["kind"] == "busy" {
+		if p["kind"] == "busy6" {
+			// the port is taken on the IPv6 loopback only; ":port" means every address of the host
+			hold, err = net.Listen("tcp6", fmt.Sprintf("[::1]:%d", port))
+			if err != nil {
+				return "ok" // no IPv6 here, or the port is gone: nothing to exercise
+			}
+			defer hold.Close()
+			addr = fmt.Sprintf(":%d", port)
+			if l, err := net.Listen("tcp", addr); err == nil {
+				l.Close()
+				return "ok" // this host lets both coexist: not a failing listen
+			}
+		} else if p["kind"] == "busy" {
 			hold, err = net.Listen("tcp", base)
 			if err != nil {
 				return "harness-error " + err.Error()
@@ -428,7 +444,12 @@ func (c12Stream) Impl(c Case) string {
 		}
 		clients = append(clients, cl)
 		if p["hangup"] == "1" && p["kind"] == "quiescent" {
-			// a client that sends its requests and hangs up without waiting for any response
+			// a client that sends its requests and hangs up without waiting for any response - or (every second
+			// one) sends an Unbind behind them and keeps its end open
+			if i%2 == 1 {
+				_ = cl.send(append(append(opFrame("search", 1), opFrame("search", 2)...), Seq(Int(2, 3), P(1, 2, nil)).Ser()...))
+				continue
+			}
 			_ = cl.send(append(opFrame("search", 1), opFrame("search", 2)...))
 			leave(cl)
 			continue
